@@ -149,6 +149,7 @@ const (
 	MUMulti
 	MUMultiReg
 	MJoinBare
+	MUMultiDecl
 	// C17 only (never drawn by the generator: weight -1)
 	LMig
 	WMig
@@ -546,6 +547,14 @@ func init() {
 		}})
 	def(MJoinBare, KindInfo{Name: "join.Join", Arity: Multi, Groups: GLib | GMulti, NInts: []int{4}, Weight: 3,
 		build: func(n *Node, k, _ []error) error { return join.Join(withNils(k, n.N[0])...) }})
+	def(MUMultiDecl, KindInfo{Slots: "U", Name: "uMultiDecl", Arity: Multi, Groups: GUser | GMulti, NInts: []int{2}, Weight: 2,
+		build: func(n *Node, k, _ []error) error {
+			msg := n.S[0].V
+			if n.N[0] == 1 {
+				msg = "v2 " + msg // a form the receiving decoder declines
+			}
+			return &UMultiDecl{Msg: msg, Errs: k}
+		}})
 	def(MStdJoin, KindInfo{Name: "goerrors.Join", Arity: Multi, Groups: GStd | GMulti, NInts: []int{4}, Weight: 3,
 		build: func(n *Node, k, _ []error) error { return goerrors.Join(withNils(k, n.N[0])...) }})
 	def(MFmt, KindInfo{Slots: "U", Name: "fmt.Errorf(%w %w)", Arity: Multi, Groups: GStd | GMulti, Weight: 3,
